@@ -115,6 +115,19 @@ def fitLoop (maxIter : Nat) (tol : Q) (timeUp : Nat → Bool) : Nat → List Ste
       else if timeUp level' then level'
       else fitLoop maxIter tol timeUp level' rest
 
+/-- the same loop with the end tests GENERATED from the body of `System.fit` (`Gen.fitStop`); this is what the driver runs.
+    `C08.generated_loop_is_model` proves it equal to the reference `fitLoop` above. -/
+def fitLoopGen (maxIter : Nat) (tol : Q) (timeUp : Nat → Bool) : Nat → List StepResult → Nat
+  | level, [] => level
+  | level, StepResult.noCandidate :: _ => level
+  | level, StepResult.activated err :: rest =>
+      if Gen.fitStop (level + 1) maxIter (errBelow err tol) (timeUp (level + 1)) then level + 1
+      else fitLoopGen maxIter tol timeUp (level + 1) rest
+
+/-- a call `fit(max_iter = k)` on a system whose history has `level` entries -/
+def fitCall (k : Nat) (tol : Q) (timeUp : Nat → Bool) (level : Nat) (steps : List StepResult) : Nat :=
+  fitLoopGen (Gen.fitLimit level k) tol timeUp level steps
+
 /-! ## Part 3: fixed-point iteration control for one sample (C06) -/
 
 /-- per-sample FPI state: `prev` = iterate fed to the loop members, `conv` = converged flag, `valid` -/
